@@ -27,7 +27,36 @@ fn self_signed(dir: &std::path::Path) -> anyhow::Result<(PathBuf, PathBuf)> {
     Ok((c, k))
 }
 
-async fn attempt(addr: SocketAddr, a: &Certs, b: &Certs, selfsigned: &(PathBuf, PathBuf), client_id: &str, topic: &str) -> String {
+fn b64(d: &[u8]) -> String {
+    const T: &[u8; 64] = b"ABCDEFGHIJKLMNOPQRSTUVWXYZabcdefghijklmnopqrstuvwxyz0123456789+/";
+    let mut s = String::new();
+    for c in d.chunks(3) {
+        let n = (c[0] as u32) << 16 | (*c.get(1).unwrap_or(&0) as u32) << 8 | *c.get(2).unwrap_or(&0) as u32;
+        s.push(T[(n >> 18) as usize & 63] as char);
+        s.push(T[(n >> 12) as usize & 63] as char);
+        s.push(if c.len() > 1 { T[(n >> 6) as usize & 63] as char } else { '=' });
+        s.push(if c.len() > 2 { T[n as usize & 63] as char } else { '=' });
+    }
+    s
+}
+
+/// a client identity file in PEM form that bundles further certificates behind the leaf: the leaf is A's client
+/// certificate, the extra one is CA B's certificate (a "full chain" file that names a foreign issuer)
+fn bundle(dir: &std::path::Path, a: &Certs, b: &Certs) -> anyhow::Result<PathBuf> {
+    std::fs::create_dir_all(dir)?;
+    let mut pem = String::new();
+    for der in [std::fs::read(a.client("localhost.der"))?, std::fs::read(b.client("ca.der"))?] {
+        pem.push_str("-----BEGIN CERTIFICATE-----\n");
+        let e = b64(&der);
+        for line in e.as_bytes().chunks(64) { pem.push_str(std::str::from_utf8(line)?); pem.push('\n'); }
+        pem.push_str("-----END CERTIFICATE-----\n");
+    }
+    let p = dir.join("bundle.pem");
+    std::fs::write(&p, pem)?;
+    Ok(p)
+}
+
+async fn attempt(addr: SocketAddr, a: &Certs, b: &Certs, selfsigned: &(PathBuf, PathBuf), bundle: &PathBuf, client_id: &str, topic: &str) -> String {
     let r = async {
         match client_id {
             "none" => {
@@ -41,6 +70,7 @@ async fn attempt(addr: SocketAddr, a: &Certs, b: &Certs, selfsigned: &(PathBuf, 
                 let (cert, key) = match client_id {
                     "trusted" => (a.client("localhost.der"), a.client("localhost.key.der")),
                     "otherca" => (b.client("localhost.der"), b.client("localhost.key.der")),
+                    "bundle" => (bundle.clone(), a.client("localhost.key.der")),
                     _ => selfsigned.clone(),
                 };
                 // the client is configured with CA A, whatever the server turns out to present
@@ -64,6 +94,7 @@ pub fn run(cfg: &Cfg) {
     let a = Certs::generate(&scratch_dir("tlsA")).expect("certificates A");
     let b = Certs::generate(&scratch_dir("tlsB")).expect("certificates B");
     let ss = self_signed(&scratch_dir("tlsS")).expect("self-signed");
+    let bun = bundle(&scratch_dir("tlsS"), &a, &b).expect("bundle");
     // server "trusted": CA A verifies clients, presents A's server certificate;
     // server "otherca": presents B's server certificate (and verifies clients against A all the same)
     let (addr_t, addr_o) = rt.block_on(async {
@@ -73,13 +104,16 @@ pub fn run(cfg: &Cfg) {
     let mut cases: Vec<String> = vec![];
     if let Some(lines) = cfg.replay_lines() { cases = lines; } else {
         for s in ["trusted", "otherca"] { for c in ["trusted", "otherca", "selfsigned", "none"] { cases.push(format!("tls {c} {s}")); } }
+        // a trusted client whose identity file also carries another CA's certificate: the trust anchors stay the
+        // configured ones
+        for s in ["trusted", "otherca"] { cases.push(format!("tls bundle {s}")); }
     }
     for (i, c) in cases.iter().enumerate() {
         let t: Vec<&str> = c.split(' ').collect();
         let addr = if t[2] == "trusted" { addr_t } else { addr_o };
         let topic = format!("/verif/tls{i}");
-        let res = rt.block_on(attempt(addr, &a, &b, &ss, t[1], &topic));
-        let want = if t[1] == "trusted" && t[2] == "trusted" { "accept" } else { "refuse" };
+        let res = rt.block_on(attempt(addr, &a, &b, &ss, &bun, t[1], &topic));
+        let want = if (t[1] == "trusted" || t[1] == "bundle") && t[2] == "trusted" { "accept" } else { "refuse" };
         let mon = if res == want { Ok(()) } else { Err(format!("C15: client identity {} against server identity {}: {res}, must {want}", t[1], t[2])) };
         out.stat(&format!("client_{}", t[1]));
         out.case(c, &res, mon);
